@@ -67,7 +67,17 @@ fn json_cases(rng: &mut Rng, tree: &HNode, out: &mut Vec<Case>) {
         }
     };
     let k = rng.next() as usize;
-    match rng.below(18) {
+    match rng.below(19) {
+        18 => {
+            // a field stated twice with different values: the documentation does not settle whether
+            // that is an error, but every route must agree (judged by the auto-vs-explicit rule below)
+            let alt = match rng.below(3) {
+                0 => replace_nth(t, "\"player_one\": true", "\"player_one\": true, \"player_one\": false", k),
+                1 => replace_nth(t, "{\"terminal\": ", "{\"terminal\": 7, \"terminal\": ", k),
+                _ => replace_nth(t, "\"prob\": ", "\"prob\": 9, \"prob\": ", k),
+            };
+            push("field-stated-twice", alt, Expect::DontCare("duplicate-json-key"));
+        }
         16 | 17 => {
             // a complete valid game followed by more data: not one JSON document
             let tail = *rng.pick(&["}", "]", " 1", "\n{}", "\n// trailing comment\n", "\n\"x\"", ",", "\n{\"terminal\": 0}", "\nnull", "x"]);
@@ -352,6 +362,25 @@ pub fn run(ctx: &mut Ctx) {
                 ctx.inconclusive("cli-watchdog");
                 continue;
             }
+            // route consistency: auto-detection means "try the JSON reader, then the Gambit reader",
+            // so whatever auto accepts must be accepted under one of the explicit formats
+            if r.status == Some(0) && c.format_arg == "auto" && !matches!(c.expect, Expect::Accept) {
+                let explicit = |fmt: &str| {
+                    let a: Vec<String> = vec!["-m".into(), "full".into(), "-t".into(), "3".into(), "-p".into(), "1".into(), "--input-format".into(), fmt.into()];
+                    cli::run(&cli_path, &a, Some(c.text.as_str()), Duration::from_secs(60))
+                };
+                let (rj, rg) = (explicit("json"), explicit("gambit"));
+                ctx.count("auto-accepted-inputs-cross-checked-against-explicit-formats", 1);
+                if !rj.timed_out && !rg.timed_out && rj.status != Some(0) && rg.status != Some(0) {
+                    ctx.violation(
+                        idx,
+                        &format!("C17:auto-accepts-what-both-explicit-formats-reject:{}", c.name),
+                        &format!("{}: with auto-detection cfr exited 0 and printed a result, but the same bytes are rejected under --input-format json ({}) and under --input-format gambit", c.name, rj.stderr.lines().find(|l| l.contains("error") || l.contains("Error")).unwrap_or("").chars().take(160).collect::<String>()),
+                        detail(),
+                    );
+                    return;
+                }
+            }
             ctx.count(&format!("corruption:{}", c.name.split("-x").next().unwrap_or(&c.name)), 1);
             let printed_object = r.stdout.trim_start().starts_with('{') || file_out.trim_start().starts_with('{');
             match &c.expect {
@@ -403,7 +432,7 @@ pub fn run(ctx: &mut Ctx) {
         }
     });
     ctx.finish(crate::report::extra(
-        "cases = corrupted inputs to the shipped binary, each derived from a valid generated file, under --input-format {json,gambit,auto}, via -i file (extensions .json/.efg/.txt) or stdin, to stdout or -o file. JSON: truncation, trailing data after a complete game (stray bracket, second document, comment), dropped/renamed required fields, wrong types, prob in {0,-1,-0.0}, all weights negative, overflowing payoff literal, garbage/empty input, wrong format selected, C11 contract violations (empty chance/player, renamed action at one node, added/dropped action, forgotten own action, relabelling across branches) written in the DSL; extra unknown fields are don't-care. Gambit: truncation at a token boundary, 1 or 3 players, wrong header, dropped action list, terminal without payoffs, chance list not summing to 1, zero/negative chance probability summing to 1, non-finite payoffs (1e999), unnamed infoset whose number is another infoset's explicit name (same player), two infoset numbers of one player with the same explicit name, one payoff perturbed by {0.5,1.01,2,100} x the documented 0.1% constant-sum tolerance (0.5x must be ACCEPTED), an interior-node outcome with a non-zero pair sum (stated in place or attached by outcome number only, payoffs stated elsewhere) that the terminals below it do not compensate, duplicate action inside a node, imperfect recall, wrong format selected, garbage. Required for invalid input: non-zero exit status that is not a signal, no result object on stdout or in the -o file, and a diagnostic containing a documented category (#json-error, #gambit-error, #auto-error, #game-error, #duplicate-infosets, #constant-sum, 'players', 'non-finite'); a documented category other than the expected one is counted, not failed. distinct = hash(input text, corruption); non-trivial = every case.",
+        "cases = corrupted inputs to the shipped binary, each derived from a valid generated file, under --input-format {json,gambit,auto}, via -i file (extensions .json/.efg/.txt) or stdin, to stdout or -o file. JSON: truncation, trailing data after a complete game (stray bracket, second document, comment), dropped/renamed required fields, wrong types, prob in {0,-1,-0.0}, all weights negative, overflowing payoff literal, garbage/empty input, wrong format selected, C11 contract violations (empty chance/player, renamed action at one node, added/dropped action, forgotten own action, relabelling across branches) written in the DSL; extra unknown fields and fields stated twice are don't-care as such, but whatever auto-detection accepts must be accepted under one of the explicit formats (auto-vs-explicit rule). Gambit: truncation at a token boundary, 1 or 3 players, wrong header, dropped action list, terminal without payoffs, chance list not summing to 1, zero/negative chance probability summing to 1, non-finite payoffs (1e999), unnamed infoset whose number is another infoset's explicit name (same player), two infoset numbers of one player with the same explicit name, one payoff perturbed by {0.5,1.01,2,100} x the documented 0.1% constant-sum tolerance (0.5x must be ACCEPTED), an interior-node outcome with a non-zero pair sum (stated in place or attached by outcome number only, payoffs stated elsewhere) that the terminals below it do not compensate, duplicate action inside a node, imperfect recall, wrong format selected, garbage. Required for invalid input: non-zero exit status that is not a signal, no result object on stdout or in the -o file, and a diagnostic containing a documented category (#json-error, #gambit-error, #auto-error, #game-error, #duplicate-infosets, #constant-sum, 'players', 'non-finite'); a documented category other than the expected one is counted, not failed. distinct = hash(input text, corruption); non-trivial = every case.",
         &["validity of each corrupted input is known by construction (the harness knows what it broke); unknown extra JSON fields and duplicate JSON keys are don't-care"],
     ));
 }
